@@ -6,9 +6,9 @@ unsat -> proved, sat -> refuted (+ model), anything else -> unknown.  Never maps
 import os, re, subprocess, tempfile, time, multiprocessing as mp
 import z3
 
-Z3_TIMEOUT_MS = int(os.environ.get("DVC_Z3_MS", "20000"))
-CVC5_TIMEOUT_MS = int(os.environ.get("DVC_CVC5_MS", "40000"))
-Z3_RETRY_MS = int(os.environ.get("DVC_Z3_RETRY_MS", "60000"))
+Z3_TIMEOUT_MS = int(os.environ.get("DVC_Z3_MS", "15000"))
+CVC5_TIMEOUT_MS = int(os.environ.get("DVC_CVC5_MS", "30000"))
+Z3_RETRY_MS = int(os.environ.get("DVC_Z3_RETRY_MS", "30000"))
 CVC5 = "/usr/bin/cvc5"
 
 
@@ -58,7 +58,15 @@ def _run_z3(smt2, timeout_ms, seed=0, tactic=None):
         if seed:
             s.set("random_seed", seed)
         s.add(fs)
-        r = s.check()
+        # hard stop: z3 does not always honour its own timeout (non-linear preprocessing, quantifier instantiation)
+        import threading
+        timer = threading.Timer(timeout_ms / 1000.0 + 2.0, ctx.interrupt)
+        timer.daemon = True
+        timer.start()
+        try:
+            r = s.check()
+        finally:
+            timer.cancel()
         if r == z3.unsat:
             return ("unsat", None, time.time() - t0)
         if r == z3.sat:
@@ -98,9 +106,35 @@ def _run_cvc5(smt2, timeout_ms):
 def solve_one(job):
     """job = (key, smt2, opts) -> (key, verdict, model_or_reason, backend, seconds_by_backend)"""
     key, smt2, opts = job
+    if opts.get("phase1"):
+        opts = dict(opts)
+        opts.pop("phase1")
+        opts.update(cvc5=False, no_retry=True, z3_ms=min(opts.get("z3_ms", Z3_TIMEOUT_MS), 5000))
+        if opts.get("triage"):
+            opts.pop("full", None)
+    full = opts.get("full")
+    if full is not None:
+        # first without the quantified hypotheses (dropping hypotheses is sound for 'proved')
+        o1 = dict(opts)
+        o1.pop("full")
+        o1["cvc5"] = False
+        o1["z3_ms"] = min(o1.get("z3_ms", Z3_TIMEOUT_MS), 10000)
+        o1["no_retry"] = True
+        r = solve_one((key, smt2, o1))
+        if r[1] == "proved":
+            return r
+        o2 = dict(opts)
+        o2.pop("full")
+        r2 = solve_one((key, full, o2))
+        for k, v in r[4].items():
+            r2[4][k] = r2[4].get(k, 0.0) + v
+        if r2[1] == "unknown" and r[1] == "refuted":
+            # model of the quantifier-free part only: a candidate counterexample, to be confirmed by replay
+            return (key, "unknown", {"candidate_model": r[2], "reason": r2[2]}, r2[3], r2[4])
+        return r2
     secs = {}
     use_cvc5 = opts.get("cvc5", True)
-    r, info, t = _run_z3(smt2, 8000, tactic="solve-eqs")
+    r, info, t = _run_z3(smt2, 2500 if opts.get("triage") else (4000 if opts.get("no_retry") else 8000), tactic="solve-eqs")
     secs["z3"] = t
     if r == "unknown":
         r, info, t = _run_z3(smt2, opts.get("z3_ms", Z3_TIMEOUT_MS))
@@ -122,6 +156,8 @@ def solve_one(job):
             if r2 == "sat":
                 return (key, "refuted", info2, "cvc5+z3", secs)
             return (key, "refuted", {}, "cvc5", secs)
+    if opts.get("no_retry"):
+        return (key, "unknown", str(reason), "none", secs)
     for tac, seed in (("qfnia", 3), (None, 11)):
         r, info, t = _run_z3(smt2, opts.get("z3_retry_ms", Z3_RETRY_MS), seed=seed, tactic=tac)
         secs["z3"] += t
@@ -157,10 +193,59 @@ def discharge(jobs):
     return res
 
 
-def quick_sat(hyps, timeout_ms=1500):
-    """In-process feasibility check used for path pruning. Returns False only if definitely unsat."""
+_nl_cache = {}
+
+
+def _is_nonlinear(e):
+    i = e.get_id()
+    r = _nl_cache.get(i)
+    if r is not None:
+        return r
+    r = False
+    if z3.is_app(e):
+        k = e.decl().kind()
+        if k == z3.Z3_OP_MUL:
+            nonconst = [c for c in e.children() if not z3.is_int_value(c)]
+            if len(nonconst) > 1:
+                r = True
+        elif k in (z3.Z3_OP_IDIV, z3.Z3_OP_MOD, z3.Z3_OP_DIV, z3.Z3_OP_REM):
+            if not z3.is_int_value(e.arg(1)):
+                r = True
+        if not r:
+            r = any(_is_nonlinear(c) for c in e.children())
+    elif z3.is_quantifier(e):
+        r = True
+    if len(_nl_cache) > 200000:
+        _nl_cache.clear()
+    _nl_cache[i] = r
+    return r
+
+
+def quick_sat(hyps, timeout_ms=300, full=True):
+    """In-process feasibility check used for path pruning. Returns False only if definitely unsat.
+    Cheap first: the linear part of the path condition decides almost every branch of the verified code."""
+    lin = [h for h in hyps if not _is_nonlinear(h)]
     s = z3.Solver()
     s.set("timeout", timeout_ms)
-    for h in hyps:
-        s.add(h)
-    return s.check() != z3.unsat
+    s.add(lin)
+    r = s.check()
+    if r == z3.unsat:
+        return False
+    if len(lin) == len(hyps) or not full:
+        return True
+    s2 = z3.Solver()
+    s2.set("timeout", timeout_ms)
+    s2.add(hyps)
+    t0 = time.time()
+    r2 = s2.check()
+    dt = time.time() - t0
+    QS["n"] += 1
+    QS["t"] += dt
+    if dt > 2 * timeout_ms / 1000.0 + 0.5:
+        QS["slow"] += 1
+        if os.environ.get("DVC_DEBUG"):
+            print("slow quick_sat %.1fs (%d hyps)" % (dt, len(hyps)), flush=True)
+    return r2 != z3.unsat
+
+
+QS = {"n": 0, "t": 0.0, "slow": 0}
